@@ -7,6 +7,7 @@ pub const MULTI: u8 = 0; // one encrypt_blocks / decrypt_blocks call (parallel b
 pub const SINGLE: u8 = 1; // one *_block call per block
 pub const B2B: u8 = 2; // one *_blocks_b2b call into a dirty output buffer
 pub const INOUT: u8 = 3; // one *_blocks_inout call (in place view)
+pub const CLOSURE: u8 = 4; // custom closure calling the mode backend's *_inplace entry points
 
 /// $spec: fn(P, iv, input, out) -> state bytes ([u8; 2*MAXB], first $ivlen meaningful)
 macro_rules! chain_case {
@@ -39,6 +40,8 @@ macro_rules! chain_case {
                 let r = do_blocks_b2b!($enc, m, blocks::<$bs>(&input), blocks_mut::<$bs>(&mut out));
                 assert!(r.is_ok());
                 buf = out;
+            } else if $how == CLOSURE {
+                do_closure!($enc, m, blocks_mut::<$bs>(&mut buf));
             } else {
                 let io = cipher::inout::InOutBuf::from(blocks_mut::<$bs>(&mut buf));
                 do_blocks_inout!($enc, m, io);
@@ -112,6 +115,17 @@ ige_enc!(ige_enc_b2_w2_n3_multi, 40, U2, 2, U4, U2, 3, MULTI);
 ige_enc!(ige_enc_b4_w1_n3_single, 40, U4, 4, U8, U1, 3, SINGLE);
 ige_dec!(ige_dec_b2_w2_n3_multi, 40, U2, 2, U4, U2, 3, MULTI);
 ige_dec!(ige_dec_b4_w3_n4_b2b, 40, U4, 4, U8, U3, 4, B2B);
+// 12-byte blocks (> 8, not a multiple of 8: word-wise shortcuts with a wrong remainder show here)
+cbc_enc!(cbc_enc_b12_w1_n2_multi, 48, U12, 12, U1, 2, MULTI);
+pcbc_dec!(pcbc_dec_b12_w2_n3_multi, 64, U12, 12, U2, 3, MULTI);
+ige_enc!(ige_enc_b12_w1_n2_single, 48, U12, 12, U24, U1, 2, SINGLE);
+// custom closure over the backend's *_inplace methods (block, parallel group, tail)
+cbc_enc!(cbc_enc_b2_w2_n4_closure, 48, U2, 2, U2, 4, CLOSURE);
+cbc_dec!(cbc_dec_b2_w2_n4_closure, 48, U2, 2, U2, 4, CLOSURE);
+pcbc_enc!(pcbc_enc_b2_w2_n4_closure, 48, U2, 2, U2, 4, CLOSURE);
+pcbc_dec!(pcbc_dec_b2_w2_n4_closure, 48, U2, 2, U2, 4, CLOSURE);
+ige_enc!(ige_enc_b2_w2_n4_closure, 48, U2, 2, U4, U2, 4, CLOSURE);
+ige_dec!(ige_dec_b2_w3_n5_closure, 48, U2, 2, U4, U3, 5, CLOSURE);
 // zero blocks: output empty, chaining value is the IV
 cbc_dec!(cbc_dec_b2_w2_n0, 40, U2, 2, U2, 0, MULTI);
 ige_enc!(ige_enc_b2_w2_n0, 40, U2, 2, U4, U2, 0, MULTI);
@@ -122,6 +136,10 @@ cbc_enc!(t_cbc_enc_b3_w2_n5_b2b, 40, U3, 3, U2, 5, B2B);
 cbc_enc!(t_cbc_enc_b8_w3_n4_inout, 40, U8, 8, U3, 4, INOUT);
 cbc_dec!(t_cbc_dec_b2_w2_n5_multi, 40, U2, 2, U2, 5, MULTI); // two full groups + tail
 cbc_dec!(t_cbc_dec_b1_w8_n9_multi, 40, U1, 1, U8, 9, MULTI); // group of 8 + tail
+cbc_dec!(t_cbc_dec_b1_w8_n33_multi, 80, U1, 1, U8, 33, MULTI); // four groups + tail
+cbc_enc!(t_cbc_enc_b1_w1_n33_b2b, 80, U1, 1, U1, 33, B2B);
+pcbc_dec!(t_pcbc_dec_b1_w4_n33_multi, 80, U1, 1, U4, 33, MULTI);
+ige_dec!(t_ige_dec_b1_w4_n33_multi, 80, U1, 1, U2, U4, 33, MULTI);
 cbc_dec!(t_cbc_dec_b3_w4_n5_inout, 40, U3, 3, U4, 5, INOUT);
 cbc_dec!(t_cbc_dec_b8_w2_n3_b2b, 40, U8, 8, U2, 3, B2B);
 cbc_dec!(t_cbc_dec_b16_w2_n3_multi, 64, U16, 16, U2, 3, MULTI);
